@@ -334,7 +334,13 @@ func (p *ProjectRunner) getDoneOrRunningProcess(name string) *Process {
 	if doneProc := p.getDoneProcess(name); doneProc != nil {
 		return doneProc
 	}
-	return p.getRunningProcess(name)
+	if runningProc := p.getRunningProcess(name); runningProc != nil {
+		return runningProc
+	}
+	// a process is added to doneProcesses before it is removed from
+	// runningProcesses: if it completed between the two lookups above it is
+	// in doneProcesses by now
+	return p.getDoneProcess(name)
 }
 
 func (p *ProjectRunner) removeRunningProcess(process *Process) {
